@@ -317,6 +317,8 @@ def fieldSet (n : Nat) : PI Unit := do
 
 def fragmentDefinition (n : Nat) : PI Unit :=
   withNode "FRAGMENT_DEFINITION" (do
+    -- `document()` looks past a description to select a definition, but a Fragment Definition does not have one
+    if (← peek) == some .stringValue then errAndPop
     bump "fragment_KW"
     fragmentName
     typeCondition
